@@ -51,7 +51,7 @@ UTs(n) == Tuples(ValsFor(n), NPairs(n)) \cup (IF n = 4 THEN Tuples(Vals4b, NPair
 ExpCase(n, ut, lk) ==
   [kind |-> "hier",
    inp |-> [src |-> "expmat", dk |-> MatOf(n, ut), qd |-> 4, pts |-> <<>>, pd |-> 1,
-            meth |-> [name |-> "none", en |-> 1, ed |-> 1, c |-> 0, d |-> 0],
+            meth |-> [name |-> "none", en |-> 1, ed |-> 1, c |-> 0, d |-> 0, dd |-> 1],
             link |-> lk, f32 |-> ((HashSeq(ut) \div 7) % 6 = 0),
             crits |-> Crits(n, [h \in 1..4 |-> Dist(h - 1, 4)], 4)]]
 \* small matrices: every linkage; n >= 4: the four replayable linkages (one in Stride), the others sampled
@@ -61,8 +61,8 @@ KeepExp(n, ut, lk) ==
   ELSE lk = OtherLinks[((h \div 16) % 3) + 1] /\ (n <= 2 \/ h % (5 * Stride) = 0)
 
 Grid == Tuples({0, 1, 2}, 2)
-Eps == { [name |-> "gauss", en |-> 1, ed |-> 2, c |-> 0, d |-> 0],     \* eps = 1/2 : |x-y|^2 = 8 is floored
-         [name |-> "gauss", en |-> 2, ed |-> 1, c |-> 0, d |-> 0] }   \* eps = 2
+Eps == { [name |-> "gauss", en |-> 1, ed |-> 2, c |-> 0, d |-> 0, dd |-> 1],     \* eps = 1/2 : |x-y|^2 = 8 is floored
+         [name |-> "gauss", en |-> 2, ed |-> 1, c |-> 0, d |-> 0, dd |-> 1] }   \* eps = 2
 PtsKey(s) == HashSeq([i \in 1..Len(s) |-> PKey(s[i])])
 PtsCase(s, m, lk) ==
   [kind |-> "hier",
@@ -74,10 +74,10 @@ KeepPts(s, m, lk) == (PtsKey(s) + m.en + LinkNo(lk)) % (4 * Stride) = 0
 \* linear / polynomial kernels of (half-)integer points with negative coordinates: similarities a/q, some <= 0
 \* (floored), some > 1 (negative dissimilarity).  Thresholds -ln((2h+1)/(2q)) lie strictly between the levels.
 SGrid == Tuples({-1, 0, 1}, 2)
-SimMeths == << [name |-> "linear", en |-> 1, ed |-> 1, c |-> 0, d |-> 1],
-               [name |-> "poly",   en |-> 1, ed |-> 1, c |-> 1, d |-> 2],
-               [name |-> "poly",   en |-> 1, ed |-> 1, c |-> 1, d |-> 3],
-               [name |-> "poly",   en |-> 1, ed |-> 1, c |-> 0, d |-> 3] >>
+SimMeths == << [name |-> "linear", en |-> 1, ed |-> 1, c |-> 0, d |-> 1, dd |-> 1],
+               [name |-> "poly",   en |-> 1, ed |-> 1, c |-> 1, d |-> 2, dd |-> 1],
+               [name |-> "poly",   en |-> 1, ed |-> 1, c |-> 1, d |-> 3, dd |-> 1],
+               [name |-> "poly",   en |-> 1, ed |-> 1, c |-> 0, d |-> 3, dd |-> 1] >>
 RECURSIVE IPow(_, _)
 IPow(b, d) == IF d = 0 THEN 1 ELSE b * IPow(b, d - 1)
 SimQ(m, pd) == IF m.name = "linear" THEN pd * pd ELSE IPow(pd, 2 * m.d)
